@@ -25,6 +25,14 @@
                          [fixed] = false is the code before proposed_fixes/C33-*.diff: a foreign thread
                          (get_running_loop() raises RuntimeError) takes the direct path although the
                          loop is running.
+   The loop may be STOPPED and run again: loop.stop() ([AStop], by an action, by the loop thread between two
+   runs, or -- the same store -- by any thread) sets `_stopping`; run_forever() tests it after every iteration
+   of _run_once (and _run_once uses a zero select timeout while it is set), so the loop stops BETWEEN two
+   iterations, with whatever was appended to _ready / _scheduled meanwhile still queued (in particular a
+   marshalled cancel_handle and the callback it is meant to cancel).  is_running() is then False: a dispose
+   that finds it so takes the direct path, one that found it True keeps waiting in future.result() until the
+   loop is run again and its cancel_handle has run ON the loop.  After run_forever() returned the loop thread
+   makes the calls of its next segment ([asegs]) and calls run_forever() again, or ends ([LDone]).
    Calls are identified by the order in which they are made (uid); a dispose names the uid.
    Assumption of the property built into the system: the loop does not start while a dispose that
    found it not running is in progress on another thread ([quiet] in [loop_step]). *)
@@ -34,7 +42,9 @@ Local Open Scope Z_scope.
 Inductive aop :=
 | ANow                      (* scheduler.schedule(action) *)
 | ARel (d : Z)              (* scheduler.schedule_relative(d us, action) *)
-| ADispose (u : nat).       (* dispose() of the disposable returned by call u *)
+| ADispose (u : nat)        (* dispose() of the disposable returned by call u *)
+| AStop                     (* loop.stop(): `self._stopping = True` (also what run_until_complete's done-callback does) *)
+| ASleep (t : Z).           (* the calling thread waits until the clock shows t (a busy callback / "run again later") *)
 
 Inductive cb :=
 | CbAction (u : nat)                (* interval: invokes the action of call u *)
@@ -47,7 +57,9 @@ Inductive aev :=
 | ADispNoop (u : nat)       (* dispose() returned at once: already disposed / nothing to dispose *)
 | AStart (u : nat)
 | AEnd (u : nat)
-| ACbErr.                   (* Handle._run of a handle cancelled after the test: logged, nothing runs *)
+| ACbErr                    (* Handle._run of a handle cancelled after the test: logged, nothing runs *)
+| AStopEv                   (* loop.stop() returned *)
+| ASlept.                   (* the sleep is over *)
 
 Record ash := ASh {
   aclock : Z;
@@ -63,7 +75,10 @@ Record ash := ASh {
   afut : list nat;                 (* futures with a result *)
   anfut : nat;
   aran : list nat;                 (* ghost: two-stage calls whose stage2 has been entered *)
-  aeff : list nat }.               (* ghost: calls whose cancellation is complete *)
+  aeff : list nat;                 (* ghost: calls whose cancellation is complete *)
+  astopping : bool;                (* loop._stopping *)
+  asegs : list (list aop) }.       (* what the loop thread does after each return of run_forever(): the calls of
+                                      the next segment, then run_forever() again; [] = the thread ends *)
 
 (* a dispose in progress *)
 Inductive dst :=
@@ -76,7 +91,8 @@ Inductive aphase :=
 | LCheck (h : nat) (k : nat)                   (* h popped, at `if handle._cancelled`; k more this iteration *)
 | LRun (h : nat) (k : nat)                     (* at `handle._run()` *)
 | LAct (u : nat) (cur : option dst) (todo : list aop) (k : nat)    (* inside the action of call u *)
-| LStage2b (u : nat) (h : nat) (k : nat).      (* stage2: call_later returned h, before handle.append *)
+| LStage2b (u : nat) (h : nat) (k : nat)       (* stage2: call_later returned h, before handle.append *)
+| LDone.                                       (* run_forever() returned for the last time: the thread has ended *)
 
 Inductive athread :=
 | AF (cur : option dst) (todo : list aop)      (* a foreign thread *)
@@ -127,7 +143,7 @@ Variable abody : nat -> list aop.     (* what the action of call u does, on the 
 
 Definition set_core (s : ash) (woken : bool) (hs : list cb) (ready : list nat) (timers : list (Z * nat))
   (hl : list (bool * list nat)) (due : list Z) : ash :=
-  ASh (aclock s) (arunning s) woken hs ready timers (acanc s) hl due (adisp s) (afut s) (anfut s) (aran s) (aeff s).
+  ASh (aclock s) (arunning s) woken hs ready timers (acanc s) hl due (adisp s) (afut s) (anfut s) (aran s) (aeff s) (astopping s) (asegs s).
 
 (* schedule / schedule_relative *)
 Definition do_sched (s : ash) (d : Z) : ash * list aev :=
@@ -146,7 +162,7 @@ Definition do_sched (s : ash) (d : Z) : ash * list aev :=
 Definition set_canc (s : ash) (canc : list nat) (hl : list (bool * list nat)) (fut : list nat)
   (eff : list nat) : ash :=
   ASh (aclock s) (arunning s) (awoken s) (ahs s) (aready s) (atimers s) canc hl (adue s) (adisp s) fut
-      (anfut s) (aran s) eff.
+      (anfut s) (aran s) eff (astopping s) (asegs s).
 
 (* cancel everything the closure of call u refers to, in one go (cancel_handle on the loop, or the
    single-handle closures) *)
@@ -165,7 +181,7 @@ Definition do_dispose (on_loop : bool) (s : ash) (u : nat) : ash * option dst * 
       if amem u (adisp s) then (s, None, [ADispNoop u])
       else
         let s1 := ASh (aclock s) (arunning s) (awoken s) (ahs s) (aready s) (atimers s) (acanc s) (ahl s) (adue s)
-                      (u :: adisp s) (afut s) (anfut s) (aran s) (aeff s) in
+                      (u :: adisp s) (afut s) (anfut s) (aran s) (aeff s) (astopping s) (asegs s) in
         let direct := on_loop || negb (arunning s) || negb (ts && fixed) in
         if direct then
           if two then
@@ -181,9 +197,15 @@ Definition do_dispose (on_loop : bool) (s : ash) (u : nat) : ash * option dst * 
           let f := anfut s in
           let h := length (ahs s) in
           (ASh (aclock s) (arunning s) true (ahs s ++ [CbCancel u f]) (aready s ++ [h]) (atimers s) (acanc s)
-               (ahl s) (adue s) (u :: adisp s) (afut s) (S f) (aran s) (aeff s),
+               (ahl s) (adue s) (u :: adisp s) (afut s) (S f) (aran s) (aeff s) (astopping s) (asegs s),
            Some (FWait u f), [])
   end.
+
+(* BaseEventLoop.stop(): `self._stopping = True`, whoever calls it; the loop looks at the flag when it
+   computes the select timeout and after each iteration of _run_once *)
+Definition set_stop (s : ash) (b : bool) (sg : list (list aop)) : ash :=
+  ASh (aclock s) (arunning s) (awoken s) (ahs s) (aready s) (atimers s) (acanc s) (ahl s) (adue s) (adisp s) (afut s)
+      (anfut s) (aran s) (aeff s) b sg.
 
 (* continuing a dispose in progress; None = blocked *)
 Definition do_cont (s : ash) (c : dst) : option (ash * list aev) :=
@@ -209,18 +231,37 @@ Definition call_step (on_loop : bool) (s : ash) (cur : option dst) (todo : list 
       | ANow :: r => let '(s', out) := do_sched s 0 in Some (s', None, r, out)
       | ARel d :: r => let '(s', out) := do_sched s d in Some (s', None, r, out)
       | ADispose u :: r => let '(s', c, out) := do_dispose on_loop s u in Some (s', c, r, out)
+      | AStop :: r => Some (set_stop s true (asegs s), None, r, [AStopEv])
+      | ASleep t :: r => if t <=? aclock s then Some (s, None, r, [ASlept]) else None
       end
   end.
 
-(* end of an iteration of _run_once: drop cancelled timers at the head, compute the select timeout *)
-Definition end_iter (s : ash) : ash * aphase :=
+(* head of _run_once: drop cancelled timers at the head, compute the select timeout
+   (`if self._ready or self._stopping: timeout = 0`) *)
+Definition begin_iter (s : ash) : ash * aphase :=
   let tm := drop_cancelled (acanc s) (atimers s) in
   let s' := set_core s (awoken s) (ahs s) (aready s) tm (ahl s) (adue s) in
   let dl := match aready s with
             | _ :: _ => Some (aclock s)
-            | [] => match tm with (w, _) :: _ => Some w | [] => None end
+            | [] => if astopping s then Some (aclock s)
+                    else match tm with (w, _) :: _ => Some w | [] => None end
             end in
   (s', LIdle dl).
+
+(* run_forever() returns (`if self._stopping: break`, then _run_forever_cleanup: _stopping = False,
+   is_running() becomes False); whatever is in _ready / _scheduled stays there.  The thread goes on
+   with its next segment (calls, then run_forever() again) or ends. *)
+Definition stop_loop (s : ash) : ash * aphase :=
+  let s0 := ASh (aclock s) false (awoken s) (ahs s) (aready s) (atimers s) (acanc s) (ahl s) (adue s) (adisp s)
+                (afut s) (anfut s) (aran s) (aeff s) false (tl (asegs s)) in
+  match asegs s with
+  | seg :: _ => (s0, LPre None seg)
+  | [] => (s0, LDone)
+  end.
+
+(* end of an iteration of _run_once: back in run_forever's `while True`, which tests _stopping *)
+Definition end_iter (s : ash) : ash * aphase :=
+  if astopping s then stop_loop s else begin_iter s.
 
 (* go on with the k handles left in this iteration *)
 Definition next_handle (s : ash) (k : nat) : ash * aphase :=
@@ -233,17 +274,17 @@ Definition next_handle (s : ash) (k : nat) : ash * aphase :=
 Definition loop_step (quiet : bool) (s : ash) (ph : aphase) : option (ash * aphase * list aev) :=
   match ph with
   | LPre cur todo =>
-      match call_step true s cur todo with
-      | Some (s', cur', todo', out) => Some (s', LPre cur' todo', out)
-      | None =>
-          match cur with
-          | Some _ => None                                      (* blocked in future.result() *)
-          | None =>
-              if quiet                                            (* run_forever() *)
-              then let s1 := ASh (aclock s) true (awoken s) (ahs s) (aready s) (atimers s) (acanc s) (ahl s)
-                                 (adue s) (adisp s) (afut s) (anfut s) (aran s) (aeff s) in
-                   let '(s', ph') := end_iter s1 in Some (s', ph', [])
-              else None
+      match cur, todo with
+      | None, [] =>
+          if quiet                                            (* run_forever() *)
+          then let s1 := ASh (aclock s) true (awoken s) (ahs s) (aready s) (atimers s) (acanc s) (ahl s)
+                             (adue s) (adisp s) (afut s) (anfut s) (aran s) (aeff s) (astopping s) (asegs s) in
+               let '(s', ph') := begin_iter s1 in Some (s', ph', [])
+          else None
+      | _, _ =>
+          match call_step true s cur todo with
+          | Some (s', cur', todo', out) => Some (s', LPre cur' todo', out)
+          | None => None                                      (* asleep *)
           end
       end
   | LIdle dl =>
@@ -265,7 +306,7 @@ Definition loop_step (quiet : bool) (s : ash) (ph : aphase) : option (ash * apha
             let s1 := set_core s (awoken s) (ahs s ++ [CbAction u]) (aready s) (tinsert (aclock s + d) ht (atimers s))
                                (ahl s) (adue s) in
             Some (ASh (aclock s1) (arunning s1) (awoken s1) (ahs s1) (aready s1) (atimers s1) (acanc s1) (ahl s1)
-                      (adue s1) (adisp s1) (afut s1) (anfut s1) (u :: aran s1) (aeff s1), LStage2b u ht k, [])
+                      (adue s1) (adisp s1) (afut s1) (anfut s1) (u :: aran s1) (aeff s1) (astopping s1) (asegs s1), LStage2b u ht k, [])
         | Some (CbCancel u f) =>
             let '(canc, hl) := cancel_all s u in
             let s1 := set_canc s canc hl (f :: afut s) (u :: aeff s) in
@@ -273,12 +314,12 @@ Definition loop_step (quiet : bool) (s : ash) (ph : aphase) : option (ash * apha
         | None => let '(s', ph') := next_handle s k in Some (s', ph', [])     (* not reachable *)
         end
   | LAct u cur todo k =>
-      match call_step true s cur todo with
-      | Some (s', cur', todo', out) => Some (s', LAct u cur' todo' k, out)
-      | None =>
-          match cur with
-          | Some _ => None
-          | None => let '(s', ph') := next_handle s k in Some (s', ph', [AEnd u])
+      match cur, todo with
+      | None, [] => let '(s', ph') := next_handle s k in Some (s', ph', [AEnd u])
+      | _, _ =>
+          match call_step true s cur todo with
+          | Some (s', cur', todo', out) => Some (s', LAct u cur' todo' k, out)
+          | None => None                                      (* asleep *)
           end
       end
   | LStage2b u h k =>
@@ -288,6 +329,7 @@ Definition loop_step (quiet : bool) (s : ash) (ph : aphase) : option (ash * apha
                 end in
       let '(s', ph') := next_handle (set_core s (awoken s) (ahs s) (aready s) (atimers s) hl (adue s)) k in
       Some (s', ph', [])
+  | LDone => None
   end.
 
 Definition astamp (tid : nat) (t : Z) (out : list aev) : list (nat * Z * aev) :=
@@ -316,25 +358,28 @@ Definition atstep (c : aconfig) (tid : nat) : aconfig :=
 Definition atick (c : aconfig) (d : nat) : aconfig :=
   let s := a_sh c in
   AConfig (ASh (aclock s + Z.of_nat d) (arunning s) (awoken s) (ahs s) (aready s) (atimers s) (acanc s) (ahl s)
-               (adue s) (adisp s) (afut s) (anfut s) (aran s) (aeff s)) (a_ths c) (a_log c).
+               (adue s) (adisp s) (afut s) (anfut s) (aran s) (aeff s) (astopping s) (asegs s)) (a_ths c) (a_log c).
 
 Definition amstep (c : aconfig) (m : amove) : aconfig :=
   match m with AMStep tid => atstep c tid | AMTick d => atick c d end.
 
 Definition arun (c : aconfig) (sched : list amove) : aconfig := fold_left amstep sched c.
 
-(* thread 0 is the loop thread (its calls before run_forever: [pre]); the others are foreign *)
-Definition ainit (t0 : Z) (pre : list aop) (progs : list (list aop)) : aconfig :=
-  AConfig (ASh t0 false false [] [] [] [] [] [] [] [] 0 [] [])
+(* thread 0 is the loop thread (its calls before the first run_forever(): [pre]; after the k-th return of
+   run_forever(): the calls of the k-th element of [segs], then run_forever() again); the others are foreign *)
+Definition ainit (t0 : Z) (pre : list aop) (segs : list (list aop)) (progs : list (list aop)) : aconfig :=
+  AConfig (ASh t0 false false [] [] [] [] [] [] [] [] 0 [] [] false segs)
           (AL (LPre None pre) :: map (fun p => AF None p) progs) [].
 End System.
 
 (* ---- what the harness compares -------------------------------------------------------- *)
-(* 0 ret, 3 dispose returned, 4 dispose no-op, 6 start, 7 end, 5 callback error *)
+(* 0 ret, 3 dispose returned, 4 dispose no-op, 6 start, 7 end, 5 callback error, 8 loop.stop() returned, 9 sleep over *)
 Definition aobs_of (e : aev) : nat * nat :=
   match e with
   | ARet u => (0, u) | ADispRet u => (3, u) | ADispNoop u => (4, u) | AStart u => (6, u) | AEnd u => (7, u)
   | ACbErr => (5, 0)
+  | AStopEv => (8, 0)
+  | ASlept => (9, 0)
   end%nat.
 Definition aobservable (l : list (nat * Z * aev)) : list (nat * Z * (nat * nat)) :=
   map (fun x => (fst (fst x), snd (fst x), aobs_of (snd x))) l.
@@ -346,6 +391,7 @@ Definition astatus (t : athread) : nat :=
   | AF _ _ => 0
   | AL (LIdle _) => 2
   | AL (LPre (Some (FWait _ _)) _) => 2
+  | AL LDone => 1
   | AL _ => 0
   end%nat.
 
